@@ -499,6 +499,29 @@ theorem topology_cpu_rows {L : Nat} {b0 b b1 bF : Bay} {em : List (Nat × Value)
       (Or.inl (by rw [hct.selEq]; exact hd)) hp
     exact cpu_view_of_sync hct hs
 
+/-
+-- OPEN: the last composition step is stated with explicit mirror hypotheses
+-- instead of being derived from the reference emulator.  Full statement:
+--
+--   for every `e : Emu` (Core.lean), every event accepted by `modelEvent e … = .ok e'`,
+--   and the bay `B e` connected from `e`'s hierarchy (state channel of thread g,
+--   `th_running` of CPU c, raw channel (g, model, i)) whose source channels mirror
+--   `e`'s raw channels: the writes `modelEvent` performs are a `Bay.Writes (· < L)`
+--   from `B e` to some `b1` mirroring `e'`, `b1.propagate` succeeds, and in the result
+--   every thread-track output equals `thView t' m i` and every CPU-track output
+--   equals `cpuView e' c m i`  (so `View.records` = what the emit callbacks see).
+--
+-- Proved here: everything after "mirroring" — `topology_thread_rows`,
+-- `topology_cpu_rows` (the mechanism, any network size, any history, any write order)
+-- and `track_thread_thView` / `track_cpu_cpuView` (the mechanism's result IS `thView` /
+-- `cpuView` when the source channels mirror the emulator state).  Missing: the
+-- simulation lemma "Core's handlers only perform channel writes on the mirrored source
+-- channels" (a structural induction over `Core.modelEvent`, no new idea); until
+-- then the mirror is a hypothesis and is what X2 tests on the real emulator.
+-- Also outside the theorems (frame condition): muxes whose select is one of their own
+-- inputs, and chained muxes (breakdown model) — covered by X1's correspondence only.
+-/
+
 /-! ### The generated channel specs only use the modes the theorems cover -/
 
 /-- Every thread tracking mode in the (regenerated) channel specs of every
